@@ -8,5 +8,7 @@ CONSTANTS
   FIX_LENGTH = FALSE
   SORT = "reverse"
   KnownDeviations = {"index-own-path-not-registered", "dirname-extension-stripped", "declared-length-0"}
+  MOUNT_SET = "all"
+  EMIT_MIN = 1
 INVARIANTS Refines Emit
 CHECK_DEADLOCK FALSE
